@@ -5,6 +5,9 @@ CONSTANTS
   SeedNames = {"A","B","C"}
   Unflushed = {"CreateOrg","UpdateOrg","CreateTeam","RevokeToken","DeleteToken"}
   AuthUnflushed = {}
+  ExpirePos = {0, 1, 2}
+  ExpireBefore = {"CreateOrg","UpdateOrg","DeleteOrg","CreateTeam","UpdateTeam","DeleteTeam","CreateRole","UpdateRole","DeleteRole","CreateMP","DeleteMP","AddMember","RemoveMember","SetTokenPerms","RevokeToken","DeleteToken"}
+  TeamScan = FALSE
   Emit = FALSE
 INVARIANTS CacheCoherent Integrity
 VIEW view
